@@ -68,6 +68,13 @@ func c16Streams(tier string) []c16Stream {
 		{"starts-with-G", []byte("GET pk a\r\nGET pk a WITHFIELDS\r\n"), false},
 		{"starts-with-P-O", []byte("PING\r\nOUTPUT json\r\nPING\r\nOUTPUT resp\r\nPDEL pk zz*\r\nPERSIST pk a\r\n"), false},
 		{"resp-then-quit", append(respCmd("GET", "pk", "a"), respCmd("QUIT")...), false},
+		// a valid command followed by a malformed one: the protocol error is reported wherever the cut falls
+		{"resp-then-malformed", append(respCmd("PING"), []byte("*1\r\nX\r\n")...), false},
+		{"telnet-then-unbalanced-quote", []byte("PING\r\nSET pk u STRING \"abc\r\n"), false},
+		{"json-mode-then-malformed", append(append(respCmd("OUTPUT", "json"), respCmd("PING")...), []byte("*2\r\n$4\r\nPING\r\n:1\r\n")...), false},
+		// a command that turns the connection into a stream, followed by further commands
+		{"subscribe-then-commands", append(append(append(respCmd("SUBSCRIBE", "c16a"), respCmd("PING", "hello")...), respCmd("SUBSCRIBE", "c16b")...), respCmd("PING")...), false},
+		{"psubscribe-then-telnet", []byte("PSUBSCRIBE c16*\r\nPING hello\r\nUNSUBSCRIBE nope\r\n"), false},
 	}
 }
 
@@ -105,7 +112,7 @@ func c16Send(x *Exec, addr string, data []byte, cuts []int) string {
 }
 
 func checkC16Cuts(job *Job, res *Result) {
-	res.Rule = "SEQ over inputs x cuts: 14 streams x every 2-way cut (long streams: every cut within 80 bytes of a command / read-buffer boundary plus a stride), every 3-way cut for streams <= 120 bytes (thorough <= 200), byte-at-a-time for streams <= 400 bytes; distinct = distinct (stream, segmentation class)"
+	res.Rule = "SEQ over inputs x cuts: 19 streams (incl. valid-then-malformed and stream-switching commands followed by further commands) x every 2-way cut (long streams: every cut within 80 bytes of a command / read-buffer boundary plus a stride), every 3-way cut for streams <= 120 bytes (thorough <= 200), byte-at-a-time for streams <= 400 bytes; distinct = distinct (stream, segmentation class)"
 	res.Assumptions = append(res.Assumptions, "each stream is replayed on a fresh connection of one server; its commands are idempotent so the state is the same for every replay", "the elapsed member of JSON replies is blanked")
 	streams := c16Streams(job.Tier)
 	caseNo := 0
